@@ -1,6 +1,6 @@
 package props
 
-// C01, real pass: larger definitions (12-24 steps) with forward references (a step depending on
+// C01, real pass: larger, densely connected definitions (14-30 steps, up to six dependencies each) with forward references (a step depending on
 // steps that are defined after it), loaded from YAML and run by the real binary in a FRESH
 // process (node ids 1..n, as every production run has them; a shard of the scripted passes has
 // ids in the millions).  Each step is a child process appending BEGIN / END lines to a marker
@@ -32,7 +32,7 @@ func c01RealBody(c *core.Ctx) {
 			c.Inconclusive(err.Error())
 			return
 		}
-		N := 12 + r.Intn(13)
+		N := 14 + r.Intn(17)
 		// a random topological order, and a different order of definition
 		topo := r.Perm(N)
 		pos := make([]int, N)
@@ -41,8 +41,8 @@ func c01RealBody(c *core.Ctx) {
 		}
 		deps := make([][]int, N)
 		for s := 0; s < N; s++ {
-			for k := 0; k < 3; k++ {
-				if pos[s] > 0 && r.Intn(100) < 45 {
+			for k := 0; k < 6; k++ {
+				if pos[s] > 0 && r.Intn(100) < 55 {
 					d := topo[r.Intn(pos[s])] // any step earlier in the topological order
 					dup := false
 					for _, x := range deps[s] {
